@@ -28,7 +28,7 @@ ASSUMPTIONS = [
     'random entries (otherwise the micro systems are singular)',
     'MALS descent/exactness clauses only without effective truncation (threshold in {0, 1e-12}, no cap); with a cap only the '
     'rank and shape clauses are checked',
-    'slack 1e-8 relative to ||x*||_A + e(guess); condition number <= 100',
+    'slack 1e-8 relative to ||x*||_A + e(guess); condition number <= 100, plus a class with condition number 1e11 (every clause is stated in the energy norm, in which a backward-stable micro solve is accurate to eps * sqrt(kappa))',
 ]
 
 DIMS = [d for d in [[2], [3], [5], [8], [2, 2], [2, 3], [3, 3], [4, 2], [4, 4], [2, 2, 2], [2, 3, 2], [3, 3, 3], [2, 2, 4], [4, 4, 4],
@@ -41,7 +41,7 @@ def sle_case(draw, method):
     d = len(dims)
     opk = draw(st.sampled_from(['dense', 'dense', 'local']))
     gk = draw(st.sampled_from(['maximal', 'rank1', 'admissible', 'admissible', 'exact']))
-    c = {'method': method, 'dims': dims, 'cplx': draw(st.booleans()), 'op': opk, 'kappa': draw(st.sampled_from([2.0, 10.0, 100.0])),
+    c = {'method': method, 'dims': dims, 'cplx': draw(st.booleans()), 'op': opk, 'kappa': draw(st.sampled_from([2.0, 10.0, 100.0, 100.0, 1e11])),
          'rhs': draw(st.sampled_from(['dense', 'lowrank'])), 'guess': gk, 'repeats': draw(st.integers(1, 4)),
          'solver': draw(st.sampled_from(['solve', 'lu'])), 'seed': draw(gen.SEED),
          'scale_exp': draw(st.sampled_from([0, 0, 0, -6, -11, 8]))}
@@ -55,6 +55,7 @@ def sle_case(draw, method):
     if method == 'mals':
         c['threshold'] = draw(st.sampled_from([0, 1e-12, 1e-12]))
         c['max_rank'] = draw(st.sampled_from([None, None, None, 1, 2, 3]))
+        c['max_rank_type'] = draw(st.sampled_from(['int', 'int', 'np.int64', 'np.int32']))
     if c['cplx'] and gk != 'exact' and draw(st.sampled_from([False, True])):
         c['dtype_mix'] = draw(st.sampled_from([[False, True, False], [False, False, True], [True, False, False], [False, True, True], [True, True, False]]))
     return c
@@ -128,7 +129,8 @@ def run(c, op, g, rhs, repeats, solver):
         return sle.als(op, g, rhs, repeats=repeats, solver=solver)
     kw = {'threshold': c['threshold']}
     if c['max_rank'] is not None:
-        kw['max_rank'] = c['max_rank']
+        # the cap as a python int or as a NumPy integer scalar (the result of np.min(...), an entry of an integer array, ...)
+        kw['max_rank'] = {'int': int, 'np.int64': np.int64, 'np.int32': np.int32}[c.get('max_rank_type', 'int')](c['max_rank'])
     return sle.mals(op, g, rhs, repeats=repeats, solver=solver, **kw)
 
 
@@ -149,9 +151,13 @@ def body(c):
         lab.add('order1')
     if c.get('scale_exp', 0):
         lab.add('rescaled')
+    if c['kappa'] > 1e6 and c['op'] == 'dense':
+        lab.add('condition_1e11')
     capped = c['method'] == 'mals' and c['max_rank'] is not None
     if capped:
         lab.add('rank_cap')
+        if c.get('max_rank_type', 'int') != 'int':
+            lab.add('rank_cap_numpy_integer')
     errs = [e0]
     last = None
     for k in range(1, c['repeats'] + 1):
@@ -190,7 +196,14 @@ def body(c):
         other = 'lu' if c['solver'] == 'solve' else 'solve'
         y = run(c, op, g, rhs, c['repeats'], other)
         yv = dense.matrix(y.cores).reshape(-1)
-        close(yv, last, 1e-7, float(np.linalg.norm(xs)) + float(np.linalg.norm(last)), 'solve_lu_agree', 'solve vs lu')
+        # two backward-stable solvers agree up to rounding times the condition number of the (micro) systems: for kappa = 1e11 the
+        # iterates are compared in the energy norm, in which both are accurate to eps * sqrt(kappa)
+        if c['kappa'] > 1e6:
+            dv = yv - last
+            require(float(np.sqrt(abs(np.vdot(dv, A @ dv)))) <= 1e-7 * scale, 'solve_lu_agree',
+                    'solve vs lu differ by %.3e in the energy norm (scale %.3e)' % (float(np.sqrt(abs(np.vdot(dv, A @ dv)))), scale))
+        else:
+            close(yv, last, 1e-7, float(np.linalg.norm(xs)) + float(np.linalg.norm(last)), 'solve_lu_agree', 'solve vs lu')
     if c.get('ranks') and any(c['ranks'][i + 1] > c['ranks'][i] * dims[i] for i in range(d)):
         lab.add('left_overparam')
     return lab
